@@ -208,6 +208,18 @@ def instances(tier, seed):
     for specs in mixed:
         for rules in (["U3"], [], ["U3", "U3"], ["H2U3", "U3"], ["U3", "H2U3"], ["X2HZH", "H2U3", "U3"]):
             add(specs, rules, None if specs[0][0] != "X" else 4, "mixed ", unitary=(rules in (["U3"], ["X2HZH", "H2U3", "U3"]) and (tier == "thorough" or specs[0][0] != "X")))
+    # the SAME operation (same angles, same qubits, same control count) several times in one circuit, also as one shared object:
+    # whatever a rule hands back for the first occurrence must be handed back afresh for the next
+    repeated = [
+        [(U3s, (0,)), (U3s, (0,))],
+        [(U3s, (1,)), ("CNOT", (0, 1)), (U3s, (1,)), (U3s, (1,))],
+        [("U3(th0,th1,-th1)|c1", (1, 0)), ("H", (1,)), ("U3(th0,th1,-th1)|c1", (1, 0))],
+        [("H", (0,)), ("RX(th0)", (1,)), ("H", (0,)), (U3s, (1,)), ("H", (0,))],
+    ]
+    for specs in repeated:
+        add(specs, ["U3"], 2, "repeated ")
+        add(specs, ["H2U3", "U3"], 2, "repeated ", unitary=(tier == "thorough"))
+    add([("U3(0.4,1.1,-0.3)", (0,)), ("RX(th0)", (1,)), ("U3(0.4,1.1,-0.3)", (0,)), ("U3(0.4,1.1,-0.3)", (0,))], ["U3"], 2, "numeric-repeated ")
     add([], ["U3"], 2, "empty ")
     add([("H", (0,))], [], 3, "idle ")
     # numeric parameters incl. special angles (the value-specific branches a symbolic run cannot take)
